@@ -452,12 +452,6 @@ fn format(opt: opt::Opt) -> Result<i32> {
                     let path = entry.path().to_owned(); // TODO: stop to_owned?
                     let opt = opt.clone();
 
-                    // The same file can be reached through several arguments under different spellings
-                    // (`a.lua`, `./a.lua`, `dir/../a.lua`): compare the canonical paths
-                    let canonical_path = path.canonicalize().unwrap_or_else(|_| path.clone());
-                    if !seen_files.insert(canonical_path) {
-                        continue;
-                    }
 
                     if path.is_file() {
                         // If the user didn't provide a glob pattern, we should match against our default one
@@ -483,6 +477,15 @@ fn format(opt: opt::Opt) -> Result<i32> {
                             && should_respect_ignores(opt.as_ref(), &path)
                             && path_is_stylua_ignored(&path, opt.search_parent_directories)?
                         {
+                            continue;
+                        }
+
+                        // The same file can be reached through several arguments under different spellings
+                        // (`a.lua`, `./a.lua`, `dir/../a.lua`): compare the canonical paths.
+                        // NOTE: only files which passed the filters above count, as a file skipped during the
+                        // traversal of a directory may also have been named explicitly
+                        let canonical_path = path.canonicalize().unwrap_or_else(|_| path.clone());
+                        if !seen_files.insert(canonical_path) {
                             continue;
                         }
 
